@@ -1,10 +1,10 @@
 """C16 — only configured / permitted neighbours get a session, set up right (structural clauses)."""
 import re
 
-from ..cfg import Renderer, walk, show, flat_guards, branches, bool_edges
+from ..cfg import Renderer, walk, show, flat_guards, branches, bool_edges, guards_of
 from ..facts import callee_names, short
 from ..sig import fn_tokens
-from ..util import view, crate_fns, root_name, expr_calls, expr_fields, expr_vars, agg_field
+from ..util import view, crate_fns, root_name, expr_calls, expr_fields, expr_vars, agg_field, field_writes
 from .c05 import ceval, atom
 
 EXPLANATION = (
@@ -33,6 +33,7 @@ def run(prog, rep, tier):
     av = view(prog, prog.body_key(ak))
     r1 = rep.rule("R16.1", "admission guard-set of accept_connection")
     check_admission(prog, av, ak, r1)
+    check_prefix_membership(prog, r1)
     r2 = rep.rule("R16.2", "peer-group inheritance and PeerParams consumption cover every field")
     check_fields(prog, av, r2)
     r3 = rep.rule("R16.3", "the two role derivations agree")
@@ -157,6 +158,28 @@ def check_fields(prog, av, r):
         else:
             r.fail("rustybgpd::event::peer::PeerParams", "param-dropped:" + f, "PeerParams.%s is never read by PeerParams::build / Global::add_peer: the configured value is silently ignored" % f, bv.loc())
     r.floor("PeerParams fields", len(pp_fields), 24)
+    # a setting that falls back to a global default (`if self.f == 0 { self.f = global }`) is read only after the fallback was
+    # applied: whatever is derived from it earlier (capabilities, FSM, PeerConfig) is built from the unset value
+    ndef = 0
+    for f in pp_fields:
+        ws = [(bi, si, st) for bi, si, st in field_writes(bv, f) if "PeerParams" in bv.f["locals"][st["p"]["l"]]]
+        if not ws:
+            continue
+        brs = branches(bv)
+        for bi, si, st in ws:
+            tests = [g.bi for g, l in guards_of(bv, bi, brs) if f in expr_fields(g.expr)]
+            if not tests:
+                continue
+            ndef += 1
+            t = tests[-1]
+            early = sorted(b for b, pl in _place_reads(bv) if "PeerParams" in bv.f["locals"][pl["l"]] and _first_field(pl) == f
+                           and b != t and b != bi and not bv.dominates(t, b))
+            if early:
+                r.fail(bv.name, "default-after-use:" + f, "PeerParams.%s is read (line %d) before its fallback to the global value is applied (line %d): what is built from it there "
+                       "(capabilities / FSM / PeerConfig) carries the unset value while the rest of the session uses the default" % (f, bv.line(early[0]), bv.line(bi)), bv.loc(early[0]))
+            else:
+                r.ok("build: every read of PeerParams.%s follows its fallback to the global default" % f)
+    r.floor("PeerParams settings with a global fallback in build", ndef, 1)
 
 
 def _reads_of_type(fv, tyname):
@@ -540,3 +563,156 @@ def check_caps(prog, r):
         r.ok("add-path: modes 0 and >3 are not stored")
     else:
         r.fail(fv.name, "addpath-mode-range", "ADD-PATH entries with an invalid mode (0 or > 3) are stored as if advertised", fv.loc())
+
+
+class _NoEval(Exception):
+    pass
+
+
+def _eval_u8(e, env):
+    """Constant-fold an integer expression over the environment {variable: value}; u8 semantics for shifts (a shift by >= 8
+    is the overflow panic of a debug build and masks in release: refuse it)."""
+    while e[0] in ("ref", "deref"):
+        e = e[1]
+    if e[0] == "const" and isinstance(e[1], int):
+        return e[1]
+    if e[0] == "var":
+        if e[1] in env:
+            return env[e[1]]
+        raise _NoEval("free variable " + e[1])
+    if e[0] == "cast":
+        return _eval_u8(e[1], env) if len(e) > 1 else None
+    if e[0] == "un" and e[1] == "Not":
+        return (~_eval_u8(e[2], env)) & 0xff
+    if e[0] == "bin":
+        a, b = _eval_u8(e[2], env), _eval_u8(e[3], env)
+        op = e[1]
+        if op in ("Shr", "Shl", "ShrUnchecked", "ShlUnchecked"):
+            if not 0 <= b < 8:
+                raise _NoEval("shift by %d" % b)
+            return (a >> b) if op.startswith("Shr") else ((a << b) & 0xff)
+        if op in ("Sub", "SubUnchecked", "SubWithOverflow"):
+            if a < b:
+                raise _NoEval("%d - %d underflows" % (a, b))
+            return a - b
+        if op in ("Add", "AddUnchecked", "AddWithOverflow"):
+            return a + b
+        if op in ("Mul", "MulWithOverflow"):
+            return a * b
+        if op == "BitAnd":
+            return a & b
+        if op == "BitOr":
+            return a | b
+        if op == "BitXor":
+            return a ^ b
+        if op == "Div" and b:
+            return a // b
+        if op == "Rem" and b:
+            return a % b
+    if e[0] == "field" and e[2] in (0, "0") and e[1][0] == "bin":     # (a op b).0 of a checked operation
+        return _eval_u8(e[1], env)
+    raise _NoEval(show(e, 60))
+
+
+def check_prefix_membership(prog, r):
+    """An unknown remote address is admitted as a dynamic neighbour when IpNet::contains says it lies inside a configured prefix:
+    the first `mask` bits are equal.  For the trailing partial octet that is `a[mask / 8] == b[mask / 8] & M` with
+    M = the top (mask % 8) bits set.  The mask expression and the octet index are constant-folded for every prefix length 0..=128
+    (a finite table; how the arithmetic is spelled does not matter)."""
+    k = prog.one(r"rustybgp_packet::bgp::IpNet::contains")
+    r.analysed(prog.name(k))
+    sites = []
+    for kk in prog.with_closures(k):
+        fv = view(prog, kk)
+        rend = Renderer(fv, depth=14, through_names=True)
+        for bi, br in branches(fv, rend).items():
+            e = br.expr
+            if not (e[0] == "bin" and e[1] in ("Eq", "Ne")):
+                continue
+            for side in (e[2], e[3]):
+                x = side
+                while x[0] in ("ref", "deref"):
+                    x = x[1]
+                if x[0] == "bin" and x[1] == "BitAnd":
+                    for m_, o_ in ((x[2], x[3]), (x[3], x[2])):
+                        idx = [y for y in walk(o_) if isinstance(y, tuple) and y and y[0] == "call" and y[1].endswith("Index::index")]
+                        if idx and not any(isinstance(y, tuple) and y and y[0] == "call" for y in walk(m_)):
+                            sites.append((fv, bi, m_, idx[0][2][1], br))
+    if len(sites) != 1:
+        r.unanalysable("IpNet::contains: %d masked octet comparisons (want 1)" % len(sites), view(prog, k).loc())
+        return
+    fv, bi, m_, idx, br = sites[0]
+    params = [fv.local_name.get(l) for l in range(2, fv.f.get("argc", 0) + 1)]
+    free = sorted({v for v in expr_vars(m_)} | {v for v in expr_vars(idx)})
+    if len(free) != 1 or free[0] not in params:
+        r.unanalysable("IpNet::contains: partial-octet mask depends on %s (want: the prefix length only)" % free, fv.loc(bi))
+        return
+    # guards under which the masked comparison is made (r > 0 in today's spelling): evaluate them too, the comparison must be
+    # made for every length with a partial octet
+    gs = [(g.expr, l) for g, l in guards_of(fv, bi, branches(fv, Renderer(fv, depth=14, through_names=True))) if set(expr_vars(g.expr)) <= set(free) and g.expr[0] == "bin"]
+    bad = None
+    for n in range(0, 129):
+        env = {free[0]: n}
+        rbits = n % 8
+        try:
+            reached = True
+            for ge, labels in gs:
+                a, b = _eval_u8(ge[2], env), _eval_u8(ge[3], env)
+                v = {"Gt": a > b, "Ge": a >= b, "Lt": a < b, "Le": a <= b, "Eq": a == b, "Ne": a != b}.get(ge[1])
+                if v is None:
+                    raise _NoEval(show(ge, 40))
+                if ("true" if v else "false") not in {str(x) for x in labels} and (1 if v else 0) not in labels:
+                    reached = False
+            if not reached:
+                if rbits:
+                    bad = (n, "the trailing %d bits of the prefix are not compared at all" % rbits)
+                    break
+                continue
+            mval, ival = _eval_u8(m_, env), _eval_u8(idx, env)
+        except _NoEval as ex:
+            if rbits == 0:
+                continue        # no partial octet: the comparison is not made (index would be past the address)
+            r.unanalysable("IpNet::contains: cannot fold the partial-octet mask for /%d: %s" % (n, ex), fv.loc(bi))
+            return
+        want = (0xff << (8 - rbits)) & 0xff if rbits else None
+        if rbits and (mval != want or ival != n // 8):
+            bad = (n, "octet %d is compared under mask 0x%02x (a /%d prefix fixes octet %d under 0x%02x)" % (ival, mval, n, n // 8, want))
+            break
+    if bad:
+        r.fail(prog.name(k), "prefix-membership-mask", "IpNet::contains for a /%d prefix: %s -- addresses outside a dynamic-neighbour prefix are admitted or addresses "
+               "inside it refused" % bad, fv.loc(bi))
+    else:
+        r.ok("IpNet::contains: for every prefix length with a partial octet the octet index is len/8 and the mask keeps exactly the top len%8 bits (129 lengths folded)")
+
+
+def _first_field(place):
+    for e in place.get("p") or []:
+        if isinstance(e, dict) and "f" in e:
+            return e.get("n")
+    return None
+
+
+def _place_reads(fv):
+    """(block, place) for every place read by a statement's rvalue or a terminator's operands."""
+    out = []
+
+    def scan(x, bi):
+        if isinstance(x, dict):
+            for k_ in ("c", "m"):
+                if isinstance(x.get(k_), dict) and "l" in x[k_]:
+                    out.append((bi, x[k_]))
+            if x.get("r") in ("ref", "discr", "rawptr", "len", "copy_for_deref") and isinstance(x.get("p"), dict):
+                out.append((bi, x["p"]))
+            for k_, v in x.items():
+                if k_ not in ("dest",):
+                    scan(v, bi)
+        elif isinstance(x, list):
+            for v in x:
+                scan(v, bi)
+    for bi in fv.live:
+        b = fv.blocks[bi]
+        for st in b["s"]:
+            if "rv" in st:
+                scan(st["rv"], bi)
+        scan({k_: v for k_, v in b["t"].items() if k_ != "dest"}, bi)
+    return out
